@@ -334,7 +334,9 @@ func (tx *Tx) rollback() {
 		return
 	}
 	if tx.writable {
+		verifYield(tx.db, "rollback.begin")
 		tx.db.freelist.Rollback(tx.meta.Txid())
+		verifYield(tx.db, "rollback.freelistRolledBack")
 		// When mmap fails, the `data`, `dataref` and `datasz` may be reset to
 		// zero values, and there is no way to reload free page IDs in this case.
 		if tx.db.data != nil {
@@ -347,6 +349,7 @@ func (tx *Tx) rollback() {
 				tx.db.freelist.Reload(tx.db.page(tx.db.meta().Freelist()))
 			}
 		}
+		verifYield(tx.db, "rollback.reloaded")
 	}
 	tx.close()
 }
